@@ -184,7 +184,14 @@ func genC02Oracle(g *Gen, n int) {
 			}
 		}
 	}
-	// single-step oracle over the same space as the merge stream (any cutoff / default ts)
+	genMergeStep(g, n)
+}
+
+// genMergeStep: the single-step oracle (never backwards, untouched when not winning, the
+// winner is the last-writer-wins winner whatever the cut-off, stale markers refused only for
+// absent keys) over the same space as the merge stream (any cutoff / default ts)
+func genMergeStep(g *Gen, n int) {
+	fvs := []int{1, 2, 3}
 	stored := smallStored()
 	for _, fv := range fvs {
 		for _, defTs := range []uint64{0, 2} {
